@@ -265,11 +265,12 @@ theorem ensureEditor_ok (i : Inner) (tok now : Nat) (i' : Inner)
 
 /-- what a refused / read-only operation leaves behind -/
 def Quiet (w : World) (o : Out) : Prop :=
-  o.world.fs = w.fs ∧ o.world.inner.docs = w.inner.docs ∧ o.world.inner.audit = w.inner.audit ∧
+  o.world.fs = w.fs ∧ (o.world.inner.docs, o.world.inner.floor) = (w.inner.docs, w.inner.floor) ∧
+  o.world.inner.audit = w.inner.audit ∧
   ∀ e ∈ o.effects, e.isMutation = false
 
 theorem quiet_fail (w : World) (i : Inner) (e : Err) (effs : List Effect)
-    (hd : i.docs = w.inner.docs) (ha : i.audit = w.inner.audit)
+    (hd : (i.docs, i.floor) = (w.inner.docs, w.inner.floor)) (ha : i.audit = w.inner.audit)
     (he : ∀ x ∈ effs, x.isMutation = false) : Quiet w (fail { w with inner := i } e effs) :=
   ⟨rfl, hd, ha, he⟩
 
@@ -277,17 +278,20 @@ theorem quiet_fail' (w : World) (e : Err) (effs : List Effect)
     (he : ∀ x ∈ effs, x.isMutation = false) : Quiet w (fail w e effs) :=
   ⟨rfl, rfl, rfl, he⟩
 
-theorem prune_docs (i : Inner) (now : Nat) : (prune i now).docs = i.docs ∧ (prune i now).audit = i.audit :=
+theorem prune_docs (i : Inner) (now : Nat) :
+    ((prune i now).docs, (prune i now).floor) = (i.docs, i.floor) ∧ (prune i now).audit = i.audit :=
   ⟨rfl, rfl⟩
 
 theorem ensureSession_docs (i : Inner) (tok now : Nat) :
-    (ensureSession i tok now).1.docs = i.docs ∧ (ensureSession i tok now).1.audit = i.audit := by
+    ((ensureSession i tok now).1.docs, (ensureSession i tok now).1.floor) = (i.docs, i.floor) ∧
+    (ensureSession i tok now).1.audit = i.audit := by
   unfold ensureSession
   simp only
   split <;> exact ⟨rfl, rfl⟩
 
 theorem ensureEditor_docs (i : Inner) (tok now : Nat) :
-    (ensureEditor i tok now).1.docs = i.docs ∧ (ensureEditor i tok now).1.audit = i.audit := by
+    ((ensureEditor i tok now).1.docs, (ensureEditor i tok now).1.floor) = (i.docs, i.floor) ∧
+    (ensureEditor i tok now).1.audit = i.audit := by
   have h := ensureSession_docs i tok now
   unfold ensureEditor
   split
